@@ -343,7 +343,11 @@ func (i *iteratorRole) IsEnabled() bool {
 	if i == nil || i.template == nil {
 		return false
 	}
-	return i.template.IsEnabled()
+	// Only valid after ProcessTemplates, like roleBase.IsEnabled.
+	// The template's `enabled` is evaluated by every generated role for itself (the
+	// template keeps the raw expression), so the iterator is enabled iff at least one of
+	// the roles it generated is still there.
+	return len(i.Roles) > 0
 }
 
 func (i *iteratorRole) setParent(role Updatable) {
